@@ -21,7 +21,7 @@ META = {
     "bounds": {"quick": {"sub-project work": "1..4", "absence steps": "<= 2 in 0..5", "unit pairs": 8, "predecessor work": "0..2"}, "thorough": {"sub-project work": "1..6", "unit pairs": 12}},
     "outside": profiles.OUTSIDE + ["D = 0 (a zero-length sub-project still shows one WORKING step)", "non-dyadic non-integer unit ratios"],
 }
-REQUIRED_COVERS = {"any": ["absence-removed", "absence-kept", "ratio:gt1", "ratio:lt1", "refused", "waits-for-predecessor", "configured-twice", "sub-project-backward", "file-rewritten", "parent-through-json", "unit-with-sub-second-part"]}
+REQUIRED_COVERS = {"any": ["absence-removed", "absence-kept", "ratio:gt1", "ratio:lt1", "refused", "waits-for-predecessor", "configured-twice", "sub-project-backward", "file-rewritten", "parent-through-json", "unit-with-sub-second-part", "reconfigured-after-file-changed", "two-predecessors"]}
 
 
 def _sub_spec(p):
@@ -82,6 +82,15 @@ def configure(p, ctx):
             S.project.write_simple_json(path)
             ctx.cover("file-rewritten")
         st = BaseSubProjectTask(file_path=path, name="sub", ID="t1")
+        if p.get("reconfigure") and int(S.project.status) == 1:
+            # the same task object was configured from this path before, when the file still held an older (shorter) result
+            S0 = build({"tasks": [{"w": 1}], "teams": profiles.layout_workers("shared1", 1), "run": {"max_time": 5}}, p, ctx.symbolic)
+            S0.project.unit_timedelta = sub_unit
+            S0.project.simulate(max_time=5)
+            S0.project.write_simple_json(path)
+            ctx.call(st.set_all_attributes_from_json, remove_absence_time_list=remove)
+            S.project.write_simple_json(path)
+            ctx.cover("reconfigured-after-file-changed")
         before = (st.default_work_amount, st.unit_timedelta, st.work_amount_progress_of_unit_step_time, st.remove_absence_time_list, st.remaining_work_amount)
         if p.get("twice") and int(S.project.status) == 1:
             # configure once with the opposite setting first: the second call alone must decide
@@ -125,11 +134,17 @@ def configure(p, ctx):
         succ = BaseTask("t2", ID="t2", default_work_amount=1)
         st.append_input_task(pred, task_dependency_mode=p["kind"])
         succ.append_input_task(st)
+        pred2 = None
+        if p.get("two_preds"):
+            # a second predecessor with a start-to-start link, served by the same single worker after the first one
+            pred2 = BaseTask("t0", ID="t0b", default_work_amount=p["pw2"])
+            st.append_input_task(pred2, task_dependency_mode=1)
+            ctx.cover("two-predecessors")
         wk = BaseWorker("w0", ID="w0", team_id="tm0", cost_per_time=1, workamount_skill_mean_map={"t0": 1, "t2": 1, "sub": 1}, workamount_skill_sd_map={}, facility_skill_map={},
                         quality_skill_mean_map={}, quality_skill_sd_map={})
         tm = BaseTeam("tm0", ID="tm0", worker_list=[wk])
-        tm.extend_targeted_task_list([pred, st, succ])
-        prj = BaseProject(init_datetime=datetime.datetime(2024, 1, 1), unit_timedelta=par_unit, workflow=BaseWorkflow([pred, st, succ]),
+        tm.extend_targeted_task_list([pred, st, succ] + ([pred2] if pred2 is not None else []))
+        prj = BaseProject(init_datetime=datetime.datetime(2024, 1, 1), unit_timedelta=par_unit, workflow=BaseWorkflow([pred, st, succ] + ([pred2] if pred2 is not None else [])),
                           organization=BaseOrganization(team_list=[tm], workplace_list=[]))
         if p.get("via_json"):
             # the parent project is saved, loaded and related to its unit time again before it is simulated
@@ -173,6 +188,12 @@ def configure(p, ctx):
                 first_ok = next((i for i, s in enumerate(plog) if s in (WORKING, FINISHED)), None)
                 if first_ok is not None and plog[first_ok] == WORKING:
                     first_ok += 1  # the update of the next step sees the predecessor WORKING
+            if pred2 is not None:
+                p2 = [int(s_) for s_ in pred2.state_record_list]
+                f2 = next((i for i, s_ in enumerate(p2) if s_ in (WORKING, FINISHED)), None)
+                if f2 is not None and p2[f2] == WORKING:
+                    f2 += 1
+                first_ok = None if (first_ok is None or f2 is None) else max(first_ok, f2)
             if widx and first_ok is not None and widx[0] != first_ok:
                 ctx.fail("C20:does-not-start-when-dependencies-allow")
             if widx and widx[0] > 0:
@@ -218,6 +239,14 @@ def obligations(tier, seed):
         obs.append({"name": "sub/%ds-in-%ds/parent-through-json" % (ss, ps), "harness": "configure",
                     "cube": {"sub_s": ss, "par_s": ps, "remove": 1, "kind": 0, "stage": "success", "via_json": True},
                     "params": [["sw", 1, 3], ["sa0", 0, 4], ["sa1", 1, 6], ["pw", 0, 1]], "pre": "sa0 < sa1", "timeout": 150, "engine": "zsym"})
+    for remove in (0, 1):
+        obs.append({"name": "sub/reconfigured-after-file-changed/remove=%d" % remove, "harness": "configure",
+                    "cube": {"sub_s": 60, "par_s": 60, "remove": remove, "kind": 0, "stage": "success", "pw": 1, "reconfigure": True},
+                    "params": [["sw", 2, 4], ["sa0", 0, 3], ["sa1", 1, 6]], "pre": "sa0 < sa1", "timeout": 150, "engine": "zsym"})
+        for kind in (0, 1):
+            obs.append({"name": "sub/two-predecessors/kind=%d/remove=%d" % (kind, remove), "harness": "configure",
+                        "cube": {"sub_s": 60, "par_s": 60, "remove": remove, "kind": kind, "stage": "success", "two_preds": True},
+                        "params": [["sw", 1, 3], ["sa0", 0, 3], ["sa1", 1, 5], ["pw", 0, 2], ["pw2", 0, 2]], "pre": "sa0 < sa1", "timeout": 150, "engine": "zsym"})
     for remove in (0, 1):
         obs.append({"name": "sub/rewritten-file/remove=%d" % remove, "harness": "configure",
                     "cube": {"sub_s": 60, "par_s": 60, "remove": remove, "kind": 0, "stage": "success", "pw": 1, "rewrite": True},
